@@ -206,6 +206,10 @@ func (in *Interp) havocValue(t types.Type, name string, opt *HavocOpts, depth in
 			}
 		}
 		return &ArrV{e}
+	case *types.Chan:
+		// an arbitrary channel cannot be modelled: a havoc'd object holds nil channels (recorded as a stub)
+		in.stubsSeen["havoc: channel fields are nil"] = true
+		return in.zero(t)
 	case *types.Pointer:
 		if in.param("havocnonnil", 0) == 0 && depth <= in.param("havocnildepth", 99) {
 			nilv := in.freshVar(name+".nil", BoolSort)
@@ -308,6 +312,11 @@ func init() {
 		nt := in.namedType("github.com/cronokirby/saferith", "Nat")
 		c := in.newCell(nt, havocModel[sfPkg+"Nat"](in, name+".c", opt))
 		return &StructV{[]Value{PtrV{C: c}}}
+	}
+	// a havoc'd hasher is a fresh one (its prior input is not arbitrary; recorded as a stub)
+	havocModel["github.com/zeebo/blake3.Hasher"] = func(in *Interp, name string, opt *HavocOpts) Value {
+		in.stubsSeen["havoc: a blake3.Hasher inside a havoc'd object is a fresh hasher"] = true
+		return &HasherM{Kind: "blake3"}
 	}
 	havocModel[dcrPkg+"ModNScalar"] = func(in *Interp, name string, opt *HavocOpts) Value { return in.freshElem(false, name) }
 	havocModel[dcrPkg+"FieldVal"] = func(in *Interp, name string, opt *HavocOpts) Value { return in.freshElem(true, name) }
